@@ -138,7 +138,7 @@ def observed_cpu_ops(model):
 
 def main():
     ck = Check("C16", "other")
-    lean = ck.lean_stage(["VelaVerif.Props.C16"])
+    lean = ck.lean_stage(["VelaVerif.Props.C16", "VelaVerif.Props.C16Src"])
     common.build_mlw_codec()
     common.setup_repo_path()
     import c16_lib
